@@ -13,6 +13,10 @@ MOD = "moptipyapps.order1d.instance"
 
 
 def run(ctx: Ctx) -> None:
+    global _FOLD
+    from sa.srcmodel import fold_consts
+    _mod = ctx.repo.module(MOD)
+    _FOLD = lambda e: fold_consts(ctx.repo, _mod, e)   # noqa: E731
     ctx.explanation = (
         "D20.1 the position-distance matrix starts as zeros and receives "
         "dist[i,j] = dist[j,i] = j - i for all j > i (hence |i - j|); D20.2 "
@@ -397,6 +401,14 @@ def run(ctx: Ctx) -> None:
     ]
 
 
+_FOLD: Any = None
+
+
+def _fold(e: Any) -> Any:
+    """Module-level constants written by name are read as their values."""
+    return _FOLD(e) if _FOLD is not None and isinstance(e, ast.AST) else e
+
+
 def _multiplier_positive(fi: FuncInfo, name: str = "multiplier") -> bool:
     ok = True
     n = 0
@@ -405,7 +417,7 @@ def _multiplier_positive(fi: FuncInfo, name: str = "multiplier") -> bool:
                 s.targets[0] if isinstance(s, ast.Assign) else s.target) \
                 == name and s.value is not None:
             n += 1
-            v = inline_locals(fi.node, s.value)
+            v = _fold(inline_locals(fi.node, s.value))
             if isinstance(v, ast.Constant) and isinstance(
                     v.value, (int, float)) and v.value > 0:
                 continue
@@ -419,6 +431,10 @@ def _multiplier_positive(fi: FuncInfo, name: str = "multiplier") -> bool:
 
 def _truth(e: ast.expr, var: str, val: float) -> bool | None:
     """Truth of a test over the single (finite) variable `var` = val."""
+    return _truth0(_fold(e), var, val)
+
+
+def _truth0(e: ast.expr, var: str, val: float) -> bool | None:
     def num(x: ast.expr) -> float | None:
         if isinstance(x, ast.Constant) and isinstance(
                 x.value, (int, float)) and not isinstance(x.value, bool):
@@ -430,10 +446,10 @@ def _truth(e: ast.expr, var: str, val: float) -> bool | None:
             return None if v is None else -v
         return None
     if isinstance(e, ast.UnaryOp) and isinstance(e.op, ast.Not):
-        t = _truth(e.operand, var, val)
+        t = _truth0(e.operand, var, val)
         return None if t is None else not t
     if isinstance(e, ast.BoolOp):
-        ts = [_truth(v, var, val) for v in e.values]
+        ts = [_truth0(v, var, val) for v in e.values]
         if any(t is None for t in ts):
             return None
         return all(ts) if isinstance(e.op, ast.And) else any(ts)
@@ -974,6 +990,7 @@ def _inner_rounds(repo: Any, fi: FuncInfo, ie: Any, q: Any, data: str,
 
 def _truth_f(e: ast.AST, val: float, finite: bool) -> bool | None:
     """_truth for the variable `d` with isfinite(d) = finite."""
+    e = _fold(e)
     if isinstance(e, ast.UnaryOp) and isinstance(e.op, ast.Not):
         t = _truth_f(e.operand, val, finite)
         return None if t is None else not t
